@@ -401,6 +401,68 @@ fn label_values(ctx: &Ctx) {
     ctx.put("label_value_builds", json!(n));
 }
 
+/// Data lines that begin alike: equal up to a character that some scanner of the assembler stops at (inside a
+/// string or a character literal, where it means nothing), or equal but for letter case or blanks inside a
+/// literal. Each line yields its own bytes, in one build and in builds that follow each other.
+fn sibling_lines(ctx: &Ctx) {
+    let mut rng = Rng::for_case(ctx.seed, 0xC06_B, 0);
+    let mut groups: Vec<Vec<(String, Vec<u8>)>> = vec![];
+    let s = |x: &str| x.as_bytes().to_vec();
+    for t in [";", "//", "/*", "*/", ":", ",", "@0", "@", "#", "=", "(", ")", "'", ".", " ; ", "$", "0x"] {
+        groups.push(vec![(format!(".db \"a{}b\"", t), s(&format!("a{}b", t))), (format!(".db \"a{}c\"", t), s(&format!("a{}c", t))), (format!(".db \"a{}\", 7", t), { let mut v = s(&format!("a{}", t)); v.push(7); v })]);
+        groups.push(vec![(format!(".db 1, \"{}\", 2", t), { let mut v = vec![1]; v.extend(s(t)); v.push(2); v }), (format!(".db 1, \"{}\", 3, 4", t), { let mut v = vec![1]; v.extend(s(t)); v.extend([3, 4]); v })]);
+    }
+    for c in [';', ':', ',', '#', '=', '/', '"', '@', '(', '.', ' ', '*'] {
+        groups.push(vec![(format!(".db '{}', 0x12", c), vec![c as u8, 0x12]), (format!(".db '{}', 0x56", c), vec![c as u8, 0x56]), (format!(".db '{}'", c), vec![c as u8])]);
+        groups.push(vec![(format!(".dw '{}', 0x1234", c), vec![c as u8, 0, 0x34, 0x12]), (format!(".dw '{}', 0x5678", c), vec![c as u8, 0, 0x78, 0x56])]);
+    }
+    groups.push(vec![(".db \"Ab\"".into(), s("Ab")), (".db \"aB\"".into(), s("aB")), (".db \"ab\"".into(), s("ab")), (".db \"AB\"".into(), s("AB"))]);
+    groups.push(vec![(".db 'A'".into(), s("A")), (".db 'a'".into(), s("a")), (".dw 'Q', 'q'".into(), vec![b'Q', 0, b'q', 0]), (".dw 'q', 'Q'".into(), vec![b'q', 0, b'Q', 0])]);
+    groups.push(vec![(".db \"a b\"".into(), s("a b")), (".db \"a  b\"".into(), s("a  b")), (".db \"a\tb\"".into(), s("a\tb")), (".db \"ab\"".into(), s("ab")), (".db \"a b \"".into(), s("a b "))]);
+    groups.push(vec![(".db ' '".into(), s(" ")), (".db '\t'".into(), s("\t")), (".db \" \"".into(), s(" ")), (".db \"  \"".into(), s("  "))]);
+    let mut n = 0u64;
+    for g in groups.iter() {
+        for seg in [Seg::Code, Seg::Eeprom] {
+            let mut order: Vec<usize> = (0..g.len()).collect();
+            rng.shuffle(&mut order);
+            let image = |lines: &[usize]| -> Vec<u8> {
+                let mut v = vec![];
+                for i in lines {
+                    v.extend(&g[*i].1);
+                    if seg == Seg::Code && v.len() % 2 == 1 {
+                        v.push(0);
+                    }
+                }
+                v
+            };
+            // one build with all of them (twice over, so that every line also follows itself), then one build per line
+            let mut all = order.clone();
+            all.extend(order.iter().rev());
+            let mut plans: Vec<Vec<usize>> = vec![all];
+            plans.extend(order.iter().map(|i| vec![*i]));
+            for plan in plans {
+                let src = format!("{}\n{}\n", seg.directive(), plan.iter().map(|i| g[*i].0.clone()).collect::<Vec<_>>().join("\n"));
+                let expect = image(&plan);
+                let out = fw::build_str(&src);
+                ctx.eval(1);
+                n += 1;
+                let img = match &out {
+                    Outcome::Ok(o) => Some(if seg == Seg::Code { o.code.clone() } else { o.eeprom.clone() }),
+                    _ => None,
+                };
+                if img.as_deref() != Some(&expect[..]) {
+                    ctx.violation(
+                        format!("data/image/{}/sibling-lines/{}", seg.directive().trim_start_matches('.'), if plan.len() > 1 { "in-one-build" } else { "in-builds-that-follow-each-other" }),
+                        format!("`{}` gave {} instead of {}", plan.iter().map(|i| g[*i].0.clone()).collect::<Vec<_>>().join(" / "), fw::clip(&format!("{:?}", out.brief()), 120), fw::hex(&expect, 48)),
+                        json!({"source": src, "macro_arguments": true, "segment": seg.directive(), "expect_image": fw::hex(&expect, 4096), "observed": out.brief()}),
+                    );
+                }
+            }
+        }
+    }
+    ctx.put("sibling_line_builds", json!(n));
+}
+
 /// Data lines inside macros that take arguments: the argument text is spliced into the line and the line is
 /// read again, which must leave the strings on that line byte for byte as written.
 fn through_macro_arguments(ctx: &Ctx) {
@@ -460,6 +522,7 @@ pub fn run(ctx: &Ctx) -> i32 {
     most_negative_value(ctx);
     label_values(ctx);
     through_macro_arguments(ctx);
+    sibling_lines(ctx);
     let n = ctx.tier.pick(5_000u64, 5_000_000u64);
     fw::par_for(n, 64, |i| {
         let mut rng = Rng::for_case(ctx.seed, 0xC06, i);
